@@ -500,7 +500,7 @@ def random_history(backend, seed, steps, focus, tmp):
 def main():
     with open(sys.argv[1]) as f:
         spec = json.load(f)
-    if spec.get("mode") in ("c01", "c06", "c18", "c06del", "c06mig", "c07", "c12", "c14"):
+    if spec.get("mode") in ("c01", "c06", "c18", "c06del", "c06mig", "c01span", "c07", "c12", "c14"):
         json.dump(extra_main(spec), sys.stdout, default=str)
         return
     tmp0 = tempfile.mkdtemp(prefix="aw-storage-rt-")
@@ -551,6 +551,12 @@ def c01(backend, seed, n, tmp):
             off = rng.choice([0, 0, 3600, -3600 * 5, 14 * 3600, -14 * 3600, 19800])
             ts_us = rng.randint(0, 4102444800 * 1000 - 1) * 1000
             dur_us = rng.choice([0, 1, 999, 1000, 999999, 1000001, rng.randint(0, 30 * 86400 * 10 ** 6)])
+            if k % 4 == 3:
+                # events that span an instant at which the spacing of binary64 numbers of microseconds doubles (2**49, 2**50,
+                # 2**51 us after the epoch: 1987, 2005, 2041): where rounding errors of the float encoding are largest
+                p = 2 ** rng.choice([49, 50, 51, 51, 51])
+                ts_us = (p - rng.randint(1, 30 * 86400 * 10 ** 6)) // 1000 * 1000
+                dur_us = rng.randint(p - ts_us, 30 * 86400 * 10 ** 6 + 999)
             data = copy.deepcopy(rng.choice(DATA + [{"s": "q\"'\\ ü€", "x": 0.1, "deep": {"a": [1, 2, {"b": None}]}}]))
             tz = timezone(timedelta(seconds=off))
             ev = Event(timestamp=dt(ts_us).astimezone(tz), duration=timedelta(microseconds=dur_us), data=copy.deepcopy(data))
@@ -748,6 +754,40 @@ def c06_deletes(tmp, n=150):
         missing = len(seen["events"])
         if missing > 60:
             bad.append(f"{missing} of {n} deletions are invisible to another connection after they returned (documented bound: about 50)")
+    finally:
+        close(h)
+    return bad
+
+
+def c01_span(backend, seed, n, tmp):
+    """Value fidelity where the float encoding is under the most strain: many events that span 2**49 / 2**50 / 2**51
+    microseconds after the epoch (the spacing of binary64 numbers doubles there), inserted in bulk and read back."""
+    from aw_core.models import Event
+    rng = random.Random(seed)
+    h = Harness(backend, tmp)
+    bad = []
+    try:
+        h.apply({"op": "create", "bucket": "b"})
+        b = h.ds["b"]
+        want = {}
+        evs = []
+        for k in range(n):
+            p = 2 ** rng.choice([49, 50, 51, 51, 51])
+            ts_us = (p - rng.randint(1, 30 * 86400 * 10 ** 6)) // 1000 * 1000
+            dur_us = rng.randint(max(0, p - ts_us - 5), 30 * 86400 * 10 ** 6 + 999)
+            evs.append(Event(timestamp=dt(ts_us), duration=timedelta(microseconds=dur_us), data={"k": k}))
+            want[k] = (ts_us, dur_us)
+        b.insert(evs)
+        for e in b.get(-1):
+            w = want.pop(e.data["k"], None)
+            if w is None:
+                bad.append(f"unexpected event {e}")
+            elif (us(e.timestamp), tdus(e.duration)) != w:
+                bad.append(f"event starting {w[0]} us after the epoch with duration {w[1]} us came back as start {us(e.timestamp)}, duration {tdus(e.duration)} us")
+            if len(bad) >= 3:
+                break
+        if want and len(bad) < 3:
+            bad.append(f"{len(want)} events not returned")
     finally:
         close(h)
     return bad
@@ -993,6 +1033,8 @@ def extra_main(spec):
                 seed = spec.get("seed_exact", spec.get("seed", 0) * 7919 + k)
                 if mode == "c01":
                     bad = c01(be, seed, spec.get("n", 40), tmp)
+                elif mode == "c01span":
+                    bad = c01_span(be, seed, spec.get("n", 1500), tmp)
                 elif mode == "c06":
                     bad = c06(be, seed, spec.get("steps", 120), tmp, trickle=False) if be != "memory" else []
                 elif mode == "c18":
